@@ -36,11 +36,13 @@ The error goroutine is `Model/CompErr.lean`: `Cfg.m` says which `select` / `swit
 loop — is enabled exactly when the machine offers the matching operation in its current label.  Error kinds
 (`CompErr.EK`): a compaction's storage action ends with `nil`, a transient error, or a corruption
 (`errors.IsCorrupted`, fault steps `bgWorkCorrupt` / `bgCommitCorrupt`, possible while `St.corr`); `SetReadOnly`
-posts `ErrReadOnly`.  `St.cwl` is `db.compWriteLocking` (set by `SetReadOnly` when it takes the token and by the
-`hasperr` loop when it does, read by the `closeC` case of `hasperr`), `St.ro` is `db.compReadOnly` (consulted by
-`tCompaction` if `Cfg.roParks`: it answers a command with `ErrReadOnly` and parks until `closeC`).  Both
-take-backs are coded blind — `SetReadOnly`'s `select { case <-db.writeLockC: default: }` and the machine's
-`<-db.writeLockC` take whatever token is in the channel — and are modelled so.
+posts `ErrReadOnly`.  `St.cwl` is `db.compWriteLocking` (set by `compactionError` when it takes `ErrReadOnly` —
+`SetReadOnly` has put the token into `writeLockC` for it — and by the `hasperr` loop when it takes the lock
+itself; read by the `closeC` case of `hasperr`), `St.ro` is `db.compReadOnly` (consulted by `tCompaction` if
+`Cfg.roParks`: it answers a command with `ErrReadOnly` and parks until `closeC`).  Until `compactionError` has
+taken `ErrReadOnly` the token is `SetReadOnly`'s, which gives it back itself when it gives up (`compPerErrC`,
+`closeC`).  Before 832d000 (`Cfg.before832`, flags `srSetsWriteLocking` …) `SetReadOnly` set `compWriteLocking`
+itself and both take-backs could run for one token.
 
 Abstractions: the write-merge protocol is C10 (here a `Put` is a non-merging writer); `tcompPauseC` is not
 modelled; a compaction goroutine works only on waited commands (`compTriggerWait` / `compTriggerRange`);
@@ -63,17 +65,60 @@ structure Cfg where
   /-- `SetReadOnly` and `compactionTransact` talk to `compactionError` as modelled (a shape fact: no step
   depends on it, `codeCfg = Cfg.repaired` demands it) -/
   callers : Bool
+  /-- `SetReadOnly` does `db.compWriteLocking = true` itself right after it has taken the token (so it was until
+  832d000; now `compactionError` sets the flag when it takes `ErrReadOnly`) -/
+  srSetsWriteLocking : Bool
+  /-- the `compPerErrC` arm of `SetReadOnly`'s second `select` gives its token back (`<-db.writeLockC`) before it
+  returns the error (since 832d000; before, the token stayed for `compWriteLocking`) -/
+  srPerErrGivesBack : Bool
+  /-- `noerr`: the `err == ErrReadOnly` case does `db.compWriteLocking = true` (since 832d000) -/
+  noerrROSetsLock : Bool
+  /-- `haserr`: likewise -/
+  haserrROSetsLock : Bool
 deriving DecidableEq, Repr
 
-def Cfg.asIs : Cfg := ⟨false, false, false, false, .asCoded, false, true⟩
-/-- every release in place, `compactionError` as coded -/
-def Cfg.repaired : Cfg := ⟨true, true, true, true, .asCoded, true, true⟩
+/-- every release in place, `compactionError` as coded, the hand-over of the token from `SetReadOnly` to
+`compactionError` as coded since 832d000: the source as it is now -/
+def Cfg.repaired : Cfg :=
+  { commitUnlocksOnError := true, openTxReleasesOnError := true, largeBatchDiscardsOnCommitError := true,
+    setReadOnlyReleasesOnClose := true, m := .asCoded, roParks := true, callers := true,
+    srSetsWriteLocking := false, srPerErrGivesBack := true, noerrROSetsLock := true, haserrROSetsLock := true }
+
+/-- the source between the repair of D23 and 832d000: `SetReadOnly` sets `compWriteLocking` itself, and both
+take-backs of that token — `SetReadOnly`'s `select { case <-db.writeLockC: default: }` on `closeC` and the
+machine's `<-db.writeLockC` — can run for the same token (`C09.write_lock_lost`) -/
+def Cfg.before832 : Cfg :=
+  { Cfg.repaired with srSetsWriteLocking := true, srPerErrGivesBack := false, noerrROSetsLock := false,
+                      haserrROSetsLock := false }
+
+/-- the code as it was when the model was first written: none of the four releases -/
+def Cfg.asIs : Cfg :=
+  { Cfg.before832 with commitUnlocksOnError := false, openTxReleasesOnError := false,
+                       largeBatchDiscardsOnCommitError := false, setReadOnlyReleasesOnClose := false,
+                       roParks := false }
+
+/-- the hand-over of the write-lock token as coded since 832d000 -/
+def Cfg.HandsOver (cfg : Cfg) : Prop :=
+  cfg.srSetsWriteLocking = false ∧ cfg.srPerErrGivesBack = true ∧ cfg.noerrROSetsLock = true ∧
+  cfg.haserrROSetsLock = true
+/-- … and as coded before -/
+def Cfg.Blind (cfg : Cfg) : Prop :=
+  cfg.srSetsWriteLocking = true ∧ cfg.srPerErrGivesBack = false ∧ cfg.noerrROSetsLock = false ∧
+  cfg.haserrROSetsLock = false
+def Cfg.Shape (cfg : Cfg) : Prop := cfg.HandsOver ∨ cfg.Blind
+
+instance (cfg : Cfg) : Decidable cfg.HandsOver := by unfold Cfg.HandsOver; infer_instance
+instance (cfg : Cfg) : Decidable cfg.Blind := by unfold Cfg.Blind; infer_instance
 
 /-- the configuration of the Go source as it is now: every fact is read off the Go AST on every run
 (`Gen/Consts.lean` is regenerated) -/
 def codeCfg : Cfg :=
-  ⟨Gen.lkCommitUnlocksOnError, Gen.lkOpenTxReleasesOnError, Gen.lkLargeBatchDiscardsOnCommitError,
-   Gen.lkSetReadOnlyReleasesOnClose, CompErr.codeM, Gen.roCompactionParks, Gen.ceCallersAsModelled⟩
+  { commitUnlocksOnError := Gen.lkCommitUnlocksOnError, openTxReleasesOnError := Gen.lkOpenTxReleasesOnError,
+    largeBatchDiscardsOnCommitError := Gen.lkLargeBatchDiscardsOnCommitError,
+    setReadOnlyReleasesOnClose := Gen.lkSetReadOnlyReleasesOnClose, m := CompErr.codeM,
+    roParks := Gen.roCompactionParks, callers := Gen.ceCallersAsModelled,
+    srSetsWriteLocking := Gen.lkSetReadOnlySetsWriteLocking, srPerErrGivesBack := Gen.lkSetReadOnlyPerErrGivesBack,
+    noerrROSetsLock := Gen.ceNoerrROSetsLock, haserrROSetsLock := Gen.ceHaserrROSetsLock }
 
 export CompErr (Eh EK)
 open CompErr (recvs next offErr offPer offLock closes onClose)
@@ -288,6 +333,12 @@ the top of the loop — parked (`mCompaction` does not look at the flag) -/
 def afterCmd (cfg : Cfg) (s : St) (b : Bool) : Bg :=
   if b && cfg.roParks && s.ro then .parked else .idle
 
+/-- receiving `ErrReadOnly` in this label makes `compactionError` set `compWriteLocking` -/
+def roSets (cfg : Cfg) : Eh → Bool
+  | .noerr => cfg.m.noerrRO && cfg.noerrROSetsLock
+  | .haserr => cfg.m.haserrRO && cfg.haserrROSetsLock
+  | _ => false
+
 /-- `setDone`: the transaction ends, its token goes back -/
 def St.setDone (s : St) : St :=
   if s.trOpen then { s with trOpen := false, trUser := false, tok := false } else s
@@ -317,7 +368,7 @@ inductive Step (cfg : Cfg) : Bool → St → St → Prop
   | selTok (s : St) (i : Nat) (p q : Pc) (hi : s.ws[i]? = some p) (hq : selNext p = some q)
       (ht : s.tok = false) :
       Step cfg false s { s with ws := s.ws.set i q, tok := true, ehTok := if p = .srSel then true else s.ehTok,
-                                cwl := if p = .srSel then true else s.cwl }
+                                cwl := s.cwl || (p == .srSel && cfg.srSetsWriteLocking) }
   | selPerErr (s : St) (i : Nat) (p q : Pc) (hi : s.ws[i]? = some p) (hq : selNext p = some q)
       (he : offPer cfg.m s.eh = true) :
       Step cfg false s { s with ws := s.ws.set i (.retE s.ehErr) }
@@ -443,11 +494,15 @@ inductive Step (cfg : Cfg) : Bool → St → St → Prop
   /-- `case db.compErrSetC <- ErrReadOnly: atomic.StoreUint32(&db.compReadOnly, 1)`; `return nil` -/
   | srSend (s : St) (i : Nat) (hi : s.ws[i]? = some .srSet) (he : recvs cfg.m s.eh = true) :
       Step cfg false s { s with ws := s.ws.set i (.ret true), eh := next cfg.m s.eh .readonly,
-                                ehErr := .readonly, ro := true }
+                                ehErr := .readonly, ro := true, cwl := s.cwl || roSets cfg s.eh }
+  /-- `case perr := <-db.compPerErrC:` (`<-db.writeLockC`, since 832d000) `return perr` -/
   | srPerErr (s : St) (i : Nat) (hi : s.ws[i]? = some .srSet) (he : offPer cfg.m s.eh = true) :
-      Step cfg false s { s with ws := s.ws.set i (.retE s.ehErr) }
-  /-- `case <-db.closeC: select { case <-db.writeLockC: default: }; return ErrClosed` — whatever token is in
-  the channel is taken out (flag false: the code before the repair of D23, the token stays) -/
+      Step cfg false s (if cfg.srPerErrGivesBack
+                        then { s with ws := s.ws.set i (.retE s.ehErr), tok := false, ehTok := false }
+                        else { s with ws := s.ws.set i (.retE s.ehErr) })
+  /-- `case <-db.closeC: <-db.writeLockC; return ErrClosed` (before 832d000:
+  `select { case <-db.writeLockC: default: }` — whatever token is in the channel is taken out; flag false: the
+  code before the repair of D23, the token stays) -/
   | srClosed (s : St) (i : Nat) (hi : s.ws[i]? = some .srSet) (hc : s.closed = true) :
       Step cfg false s (if cfg.setReadOnlyReleasesOnClose
                         then { s with ws := s.ws.set i (.ret false), tok := false, ehTok := false }
